@@ -119,6 +119,15 @@ fn fam_0(thorough: bool) -> Vec<Case> {
             rec(&mut c, &mut noise, base, "after failed union".into());
             f.clear();
             rec(&mut c, &mut noise, base, "after clear".into());
+            // fill / clear cycles: memory must not creep with the number of clears
+            for cyc in 0..300u64 {
+                for x in 0..8u64 {
+                    let _ = f.insert(&mix(cyc * 8 + x));
+                }
+                f.clear();
+            }
+            rec(&mut c, &mut noise, base, "after 300 fill/clear cycles".into());
+            c.flat.push(("after clear".into(), "after 300 fill/clear cycles".into()));
             c.flat.push(("after 100 inserts".into(), "after 10000 inserts".into()));
             drop(f);
             cases.push(c);
@@ -166,6 +175,15 @@ fn fam_1(thorough: bool) -> Vec<Case> {
             }
             f.clear();
             rec(&mut c, &mut noise, base, "after clear".into());
+            // fill / clear cycles: memory must not creep with the number of clears
+            for cyc in 0..300u64 {
+                for x in 0..8u64 {
+                    let _ = f.insert(&Key(mix(cyc * 8 + x)));
+                }
+                f.clear();
+            }
+            rec(&mut c, &mut noise, base, "after 300 fill/clear cycles".into());
+            c.flat.push(("after clear".into(), "after 300 fill/clear cycles".into()));
             c.flat.push(("after 100 inserts".into(), "after 10000 inserts".into()));
             drop(f);
             cases.push(c);
@@ -202,6 +220,15 @@ fn fam_2(thorough: bool) -> Vec<Case> {
             rec(&mut c, &mut noise, base, "after union".into());
             f.clear();
             rec(&mut c, &mut noise, base, "after clear".into());
+            // fill / clear cycles: memory must not creep with the number of clears
+            for cyc in 0..300u64 {
+                for x in 0..8u64 {
+                    f.insert(&mix(cyc * 8 + x)).unwrap();
+                }
+                f.clear();
+            }
+            rec(&mut c, &mut noise, base, "after 300 fill/clear cycles".into());
+            c.flat.push(("after clear".into(), "after 300 fill/clear cycles".into()));
             c.flat.push(("after 10 inserts".into(), format!("after {} inserts", last)));
             cases.push(c);
         }
@@ -241,6 +268,14 @@ fn fam_3(thorough: bool) -> Vec<Case> {
                 }
                 s.clear();
                 rec(&mut c, &mut noise, base, "after clear".into());
+                for cyc in 0..300u64 {
+                    for x in 0..8u64 {
+                        s.add(&mix(cyc * 8 + x));
+                    }
+                    s.clear();
+                }
+                rec(&mut c, &mut noise, base, "after 300 fill/clear cycles".into());
+                c.flat.push(("after clear".into(), "after 300 fill/clear cycles".into()));
                 c.flat.push(("after 10 adds".into(), format!("after {} adds", cap.min(last))));
                 cases.push(c);
             }
@@ -281,6 +316,14 @@ fn fam_4(thorough: bool) -> Vec<Case> {
         rec(&mut c, &mut noise, base, "after merge".into());
         h.clear();
         rec(&mut c, &mut noise, base, "after clear".into());
+        for cyc in 0..100u64 {
+            for x in 0..8u64 {
+                h.add(&mix(cyc * 8 + x));
+            }
+            h.clear();
+        }
+        rec(&mut c, &mut noise, base, "after 100 fill/clear cycles".into());
+        c.flat.push(("after clear".into(), "after 100 fill/clear cycles".into()));
         c.flat.push(("after 10 adds".into(), format!("after {} adds", last)));
         cases.push(c);
     }
@@ -469,7 +512,10 @@ fn main() {
             let va = c.points.iter().find(|p| &p.0 == a).map(|p| p.1);
             let vb = c.points.iter().find(|p| &p.0 == b).map(|p| p.1);
             if let (Some(va), Some(vb)) = (va, vb) {
-                if vb as f64 > 2.0 * va as f64 + 1024.0 {
+                // clear cycles on fixed-size structures must come back to the same footprint (256 B slack);
+                // stream-length comparisons allow Vec doubling
+                let lim = if b.contains("cycles") { va as f64 + 256.0 } else { 2.0 * va as f64 + 1024.0 };
+                if vb as f64 > lim {
                     let family = c.name.split(' ').next().unwrap().to_string();
                     run.violation(Viol { property: "C11".into(), signature: format!("{} memory grows with the stream", family), message: format!("{}: {} bytes {} but {} bytes {}", c.name, va, a, vb, b), replay: json!({"structure": c.name, "all_points": c.points}) });
                 }
